@@ -339,6 +339,12 @@ def chainField (l : Layout) (hops : List Hop) (f : Field) : Except Err Field :=
     pure { xr with values := { xr.values with data := interleave xr.values.data xi.values.data } }
   else fieldChain AsdfLib.observed lh f
 
+def parseRoute? (s : String) : Option Route :=
+  match s with
+  | "dict" => some .dict | "asdf" => some .asdf | "pickle" => some .pickle | "pickle-object" => some .pickleObject | "pickle-object-5" => some .pickleObject5
+  | "fits-tree" => some .fitsTree | "fits-image-field" => some .fitsImageField
+  | "fits-image-basis" => some .fitsImageBasis | _ => none
+
 def step (st : St) : List String → St × String
   | ["dict", "gridold", t] =>
     match parseTree? t with
@@ -464,6 +470,20 @@ def step (st : St) : List String → St × String
       | .ok b => (st, fitsAnswer (writeBasisFitsOld b) readBasisFitsOld ModeBasis.toDict)
       | .error e => (st, "err " ++ showErr e)
     | _, _ => (st, "bad-op")
+  | ["dtype", route, ds, vals] =>
+    match parseRoute? route, DType.parse? ds, parseRatList? vals with
+    | some r, some d, some vs =>
+      if !d.wellFormed then (st, "bad-op") else
+      match readDType r d with
+      | .error e => (st, "err " ++ showErr e)
+      | .ok d' =>
+        match r, fitsCard d with
+        | .fitsImageField, .ok c | .fitsImageBasis, .ok c =>
+          let stored := vs.map c.store
+          (st, s!"ok read={d'.str} tag={d.tag} holds={vs.all fun v => d.kind == .float || d.kind == .complex || (v.den == 1 && d.holds v.num)} card={c.bitpix}/{c.bzero} " ++
+               s!"fits={stored.all fun x => x.den != 1 || c.fits x.num} stored={showRatList stored} back={showRatList (stored.map c.load)}")
+        | _, _ => (st, s!"ok read={d'.str} tag={d.tag} holds={vs.all fun v => d.kind == .float || d.kind == .complex || (v.den == 1 && d.holds v.num)}")
+    | _, _, _ => (st, "bad-op")
   | ["guess", name] => (st, "ok " ++ fmtShown (guessFormat name.toList))
   | ["format", name, fmt] =>
     match formatOf name.toList (parseFmtArg fmt) with
